@@ -61,6 +61,11 @@ static sexp sexp_set_signal_action (sexp ctx, sexp self, sexp signum, sexp newac
   if (res)
     return sexp_user_exception(ctx, self, "couldn't set signal", signum);
   sexp_vector_set(sexp_global(ctx, SEXP_G_SIGNAL_HANDLERS), signum, newaction);
+  /* register the root context of this VM: ctx may be the temporary child context */
+  /* of an eval or load, which is garbage (and eventually freed) once that returns; */
+  /* the C handler only needs the globals, which all contexts of the VM share */
+  while (sexp_context_parent(ctx) && sexp_contextp(sexp_context_parent(ctx)))
+    ctx = sexp_context_parent(ctx);
   sexp_signal_contexts[sexp_unbox_fixnum(signum)] = ctx;
   return oldaction;
 }
